@@ -5,7 +5,9 @@
 // Part (b): leader + follower + non-voter in one worker process; Store.Query is
 // called directly on each node at every level under seeded scenarios (steady,
 // leadership move, partition, apply lag created at the fsm.apply.entry hook on
-// one node's FSM goroutine only, restart, linearizable-vs-apply). The worker
+// one node's FSM goroutine only, restart, linearizable-vs-apply, linearizable
+// read stalled inside the read-index path while leadership is lost/regained -
+// linterm.go). The worker
 // only reports what it observed (samples taken before and after every call);
 // the verdicts are computed here from those observations.
 package c16
@@ -187,6 +189,9 @@ type obs struct {
 	WriteIdx  uint64  `json:"write_idx,omitempty"`
 	LeaderFsm uint64  `json:"leader_fsm,omitempty"` // leader's applied command index, no write in flight
 	Streak    int     `json:"streak,omitempty"`     // consecutive served linearizable reads under the same cut
+	TermCI    int64   `json:"term_ci,omitempty"`    // linearizable: node's raft term when the read had just sampled the commit index (hook), 0 = point not reached
+	TermVL    int64   `json:"term_vl,omitempty"`    // linearizable: node's raft term when the quorum had just confirmed leadership (hook), 0 = point not reached
+	Disturb   string  `json:"disturb,omitempty"`    // what was done to the leadership while the read was stalled at a hook point
 }
 
 type scnResult struct {
@@ -201,11 +206,12 @@ type scnResult struct {
 var scnKinds = []string{"steady", "strict-lag", "partition", "restart", "leader-move", "strict-lag", "lin-apply", "partition-leader"}
 
 func run(c *vf.Ctx) {
-	c.Rule("(a) every point of the grid last-contact age (24 values incl. never/negative) x freshness (6) x strict (2) x appended-at zero/non-zero x (fsmIndex,commitIndex) (7 pairs: equal, behind, ahead) x apply-minus-append (30 values incl. exact bounds +-1ns); points whose freshness lies within +-20 ms of the age interval the wall-clock read could have seen are skipped; non-trivial = bound set and last contact within it (decided by the strict clause). (b) seeded scenarios on a live leader+follower+non-voter cluster (steady levels, leadership move with concurrent weak reads, partition of follower/non-voter/leader, apply lag on one node's FSM goroutine via the fsm.apply.entry hook, follower restart, linearizable read racing a delayed apply); Store.Query called directly on each node for every level; non-trivial = scenario in which at least one call received a must-serve/must-refuse verdict from the sampled state")
+	c.Rule("(a) every point of the grid last-contact age (24 values incl. never/negative) x freshness (6) x strict (2) x appended-at zero/non-zero x (fsmIndex,commitIndex) (7 pairs: equal, behind, ahead) x apply-minus-append (30 values incl. exact bounds +-1ns); points whose freshness lies within +-20 ms of the age interval the wall-clock read could have seen are skipped; non-trivial = bound set and last contact within it (decided by the strict clause). (b) seeded scenarios on a live leader+follower+non-voter cluster (steady levels, leadership move with concurrent weak reads, partition of follower/non-voter/leader, apply lag on one node's FSM goroutine via the fsm.apply.entry hook, follower restart, linearizable read racing a delayed apply, and linearizable reads stalled at the hook points linread.after_commit_index / linread.after_verify_leader while the node loses its leadership by transfer or isolation and, in most variants, regains it in a later term, with and without writes acknowledged by the interim leader - every variant in every run); Store.Query called directly on each node for every level; non-trivial = scenario in which at least one call received a must-serve/must-refuse verdict from the sampled state")
 	c.Assume("the spec in specStale is a faithful reading of the property text; 'behind' = applied command index < index of the newest command entry the node was sent")
 	c.Assume("a node 'believes it is leader' iff Store.IsLeader(); a weak read is only judged when IsLeader was false before and after the call and no leadership observation was delivered to the node in between (re-read 400 ms later)")
 	c.Assume("last-contact age during a call lies between max(0, age_after - elapsed) and age_before + elapsed, ages taken from raft's own last_contact statistic; verdicts need 20 ms clearance from the bound, otherwise the call is not judged")
 	c.Assume("strict verdicts only when fsm_index, command_commit_index, fsm_update_time and leader_appended_at_time (Store.Stats) were identical before and after the call")
+	c.Assume("the raft term reported by Store.Stats never decreases; for every linearizable read the term is sampled on the reading goroutine at the hook right after the commit index was sampled and at the hook right after the quorum confirmed leadership; only a served read with two different non-zero samples is a violation")
 	if c.ReplayFile != "" {
 		replay(c)
 		return
@@ -215,6 +221,7 @@ func run(c *vf.Ctx) {
 	c.Extra("grid_exhaustive", true)
 
 	nScn := c.N(32, 480)
+	nLin := c.N(6, 90) // "lin-term-change" scenarios, case numbers from linTermBase
 	tmp := vf.TempDir("c16")
 	defer os.RemoveAll(tmp)
 	par := 4
@@ -222,7 +229,14 @@ func run(c *vf.Ctx) {
 	var wg sync.WaitGroup
 	var mu sync.Mutex
 	judged := 0
+	var cases []int
 	for i := 0; i < nScn; i++ {
+		cases = append(cases, i)
+		if nLin > 0 && i%(nScn/nLin) == 0 && len(cases)-i-1 < nLin {
+			cases = append(cases, linTermBase+len(cases)-i-1)
+		}
+	}
+	for _, i := range cases {
 		wg.Add(1)
 		go func(i int) {
 			defer wg.Done()
@@ -255,10 +269,10 @@ func run(c *vf.Ctx) {
 	}
 	wg.Wait()
 	withVerdict := int(c.Counter("scenarios_with_verdict"))
-	c.Logf("scenarios judged: %d of %d, with verdicts: %d", judged, nScn, withVerdict)
+	c.Logf("scenarios judged: %d of %d, with verdicts: %d", judged, len(cases), withVerdict)
 	c.Require(int64(100000+nScn*3/4), 40000)
 	if withVerdict < nScn/2 || c.Counter("none_refused:strict-behind-lag-over-bound") == 0 || c.Counter("none_refused:no-contact-within-bound") == 0 ||
-		c.Counter("weak_refused_by_non_leader") == 0 || c.Counter("auto_nonvoter_none") == 0 {
+		c.Counter("weak_refused_by_non_leader") == 0 || c.Counter("auto_nonvoter_none") == 0 || c.Counter("lin_term_change_judged") == 0 {
 		// the live part saw too little (the grid alone would satisfy the thresholds)
 		c.Inconclusive("live scenarios observed too little")
 		c.Require(1<<40, 1<<30)
@@ -412,6 +426,19 @@ func judgeObs(c *vf.Ctx, r scnResult, o obs) (string, string, string) {
 		}
 		return "", "", ""
 	case "linearizable":
+		// "confirmed leadership with a quorum in an unchanged term": the term the
+		// node was in when the read had just sampled the commit index and the
+		// term it was in when the quorum had just confirmed its leadership were
+		// both observed on the reading goroutine (raft terms never decrease).
+		if o.TermCI > 0 && o.TermVL > 0 && o.TermCI != o.TermVL {
+			c.Count("lin_term_change_judged", 1)
+			if o.Served {
+				return "violation", "linearizable:served-across-term-change", fmt.Sprintf("linearizable read served although the node's term was %d when the read sampled the commit index and %d when the quorum confirmed its leadership (leadership during the read: %s). %s",
+					o.TermCI, o.TermVL, map[bool]string{true: o.Disturb, false: "not disturbed by the harness"}[o.Disturb != ""], desc)
+			}
+			c.Count("lin_refused_after_term_change", 1)
+			return "held", "", ""
+		}
 		if o.Served && notLeader {
 			return "violation", "linearizable:served-by-non-leader:" + o.Role, "linearizable read served by a node that did not believe it was leader. " + desc
 		}
@@ -444,6 +471,15 @@ func judgeObs(c *vf.Ctx, r scnResult, o obs) (string, string, string) {
 		if !o.Served && (notLeader || o.CutMs > 0) {
 			c.Count("lin_refused_non_leader_or_cut", 1)
 			return "held", "", ""
+		}
+		if !o.Served && o.Disturb != "" && o.Disturb != "none" && o.TermCI > 0 && o.TermVL == 0 {
+			// leadership was taken away while the read was stalled before the
+			// confirmation, and the confirmation did not succeed
+			c.Count("lin_refused_confirmation_failed_after_disturbance", 1)
+			return "held", "", ""
+		}
+		if o.Served && o.TermCI > 0 && o.TermCI == o.TermVL {
+			c.Count("lin_served_terms_equal_at_hooks", 1)
 		}
 		return "", "", ""
 	case "strong":
